@@ -398,8 +398,18 @@ func ruleScratchField(rule, typ, field string, minUses int, why string) func(*Ct
 func ruleScratchLocal(rule string, fns []string, min int, why string) func(*Ctx) {
 	return func(c *Ctx) {
 		n := 0
+		seenFn := map[*ssa.Function]bool{}
+		var region []*ssa.Function
 		for _, fn := range fns {
-			f := c.fn(fn)
+			for _, g := range freshRegion(c, c.fn(fn)) { // the fill-and-hand-over may sit in an extracted helper
+				if !seenFn[g] {
+					seenFn[g] = true
+					region = append(region, g)
+				}
+			}
+		}
+		for _, f := range region {
+			fn := c.fname(f)
 			for _, b := range f.Blocks {
 				for _, in := range b.Instrs {
 					al, ok := in.(*ssa.Alloc)
